@@ -214,9 +214,9 @@ def replay(prop, path):
     if code == 2:
         print(f"ANALYSIS-ERROR property={prop} reason={err}")
         return 2
-    from .report import abstract_private
+    from .report import abstract_private, module_free
 
-    key = (want["property"], want["rule"], want["construct"], abstract_private(want["statement"]))
+    key = (want["property"], want["rule"], module_free(want["construct"]), abstract_private(want["statement"]))
     for f in chk.findings:
         if f.key() == key:
             print(f"VIOLATION property={prop} replay={path}")
